@@ -236,7 +236,7 @@ func buildRepo(c *vf.Ctx, g *gitx.Git, r *rand.Rand, dir string) (*repoModel, *g
 			}
 		}
 	}
-	ids, err := g.Import(dir, h)
+	ids, err := gitx.New(dir+".home").Import(dir, h) // own HOME per repository: gitx.Import names its marks file after the global call counter, which two parallel imports can share
 	if err != nil {
 		return nil, nil, err
 	}
